@@ -57,6 +57,16 @@ def explain(evs, f):
 def run(prop, tier, seed, replay=None):
     t0 = time.time()
     quick = tier == "quick"
+    layer = (json.load(open(replay)).get("scenario") or {}).get("layer") if replay is not None else None
+    if prop == "C07" and layer in ("L0", "L1"):
+        # a finding of one of the embedded parts: replica side (harness L0) / controller side (L1)
+        import fam_controller, fam_replica
+        v, k, st = (fam_controller if layer == "L1" else fam_replica).run("C07", tier, seed, replay=replay, embed=True)
+        for _, rec in k:
+            print("KNOWN-FINDING: property=C07 %s" % _.get("what", ""))
+        for path, rec in v:
+            print("VIOLATION property=C07 replay=%s" % path)
+        return 1 if v else 0
     build_harness(["clusterdrv"])
     build_repo_binary(os.path.join(BUILD, "jiva"))
     work = scratch("cl.")
@@ -75,12 +85,39 @@ def run(prop, tier, seed, replay=None):
             if not r["ok"]:
                 raise HarnessError("Rebuild.tla violates %s" % r["violated"])
             mc_states, mc_trans = r["distinct"], r["generated"]
-            mc_runs.append(dict(distinct=r["distinct"], generated=r["generated"]))
+            mc_runs.append(dict(module="Rebuild", distinct=r["distinct"], generated=r["generated"]))
+            if prop == "C07":
+                # the replica's side (Replica.tla): sync under the open replica, reload, UpdateLUNMap
+                import fam_replica
+                r = run_tlc_mc("MCReplica", fam_replica.mc_cfg(fam_replica.REBUILD_CFG), timeout=1800)
+                if not r["ok"]:
+                    raise HarnessError("Replica.tla (rebuild configuration) violates %s" % r["violated"])
+                mc_states += r["distinct"]
+                mc_trans += r["generated"]
+                mc_runs.append(dict(module="MCReplica/rebuild", distinct=r["distinct"], generated=r["generated"]))
+                # sector granularity: what C07 requires holds; the as-coded read-modify-write of a
+                # not-yet-synced WO replica is refuted (TLC exhibits the recorded finding, DESIGN.md 7)
+                rmw = lambda bug: ("SPECIFICATION Spec\nCONSTANTS\n  SPB = 2\n  MaxW = %d\n  MaxSnap = 3\n  Bug = {%s}\n"
+                                   "INVARIANTS PromotedIdentical AckedHeld\nCHECK_DEADLOCK FALSE\n" % (4 if quick else 5, bug))
+                r = run_tlc_mc("RebuildRmw", rmw(""), timeout=1800)
+                if not r["ok"]:
+                    raise HarnessError("RebuildRmw.tla violates %s" % r["violated"])
+                mc_states += r["distinct"]
+                mc_trans += r["generated"]
+                mc_runs.append(dict(module="RebuildRmw", distinct=r["distinct"], generated=r["generated"]))
+                r = run_tlc_mc("RebuildRmw", rmw('"staleRMW"'), timeout=600)
+                if r["ok"]:
+                    raise HarnessError("self-check: the as-coded stale read-modify-write was not refuted")
+                mc_runs.append(dict(module="RebuildRmw", mutant="staleRMW (as coded: the recorded finding)", refuted_by=r["violated"]))
             if not quick:
                 r = run_tlc_mc("Rebuild", mc_cfg(("reloadEarly", "verifySkipsChain")), timeout=900)
                 if r["ok"]:
                     raise HarnessError("self-check: combined mutant not refuted")
                 mc_runs.append(dict(mutant="reloadEarly+verifySkipsChain", refuted_by=r["violated"]))
+                r = run_tlc_mc("Rebuild", mc_cfg(("addUnlockedSnapshot",)), timeout=900)
+                if r["ok"]:
+                    raise HarnessError("self-check: mutant addUnlockedSnapshot not refuted")
+                mc_runs.append(dict(mutant="addUnlockedSnapshot", refuted_by=r["violated"]))
         nproc = 3 if quick else 14
         per = 1 if quick else 8
         cmds, parts = [], []
@@ -139,6 +176,20 @@ def run(prop, tier, seed, replay=None):
                 known.append((k, rec))
             else:
                 violations.append((save_replay(prop, "%s-%s" % (tier, fingerprint([f["t"], mine])), rec), rec))
+        l1 = l0 = None
+        if prop == "C07" and replay is None:
+            # controller side of a rebuild on harness L1: add under foreground writes, copy, promotion
+            # (deterministic placement of the writes relative to the add's critical sections)
+            import fam_controller
+            v1, k1, l1 = fam_controller.run("C07", tier, seed, embed=True)
+            violations += v1
+            known += k1
+            # replica side on harness L0: files rewritten under the open replica while WO writes
+            # arrive, reload, UpdateLUNMap (with I/O between its sections), promotion
+            import fam_replica
+            v0, k0, l0 = fam_replica.run("C07", tier, seed, embed=True)
+            violations += v0
+            known += k0
         conclusive = promos = 0
         samples = []
         for t, evs in by_t.items():
@@ -162,6 +213,9 @@ def run(prop, tier, seed, replay=None):
                         rule="one evaluation = one cluster scenario with real processes (bootstrap, writes, kill, restart, rebuild under foreground writes / clone with polling); non-trivial = reached a promotion after a kill (C07) or a clone that became RW (C19)",
                         promotions_observed=promos, inconclusive=len(by_t) - conclusive, other_rule_failures=others[:10],
                         records_validated=result["records"], model_checking_runs=mc_runs, exhaustive=False)
+        if l1:
+            coverage["controller_side_L1"] = l1
+            coverage["replica_side_L0"] = l0
         if coverage["distinct_nontrivial"] < 2:
             coverage["distinct_nontrivial_note"] = "fewer than 2 conclusive scenarios in this run"
         write_evidence(prop, tier, seed, "model_checking", coverage, assumptions, time.time() - t0, len(violations))
